@@ -230,12 +230,18 @@ def intrinsics(reg: Registry):
         A, y = a[0], a[1]
         if not isinstance(A, VanderV):
             raise AnalysisError("lstsq on a matrix that is not a Vandermonde matrix")
-        it = reg.new(kind="lsq", x=A.x, y=as_sym(y), call_style="poly", opts={"ncols": A.ncols})
+        bad = set(k) - {"rcond"}
+        if bad:
+            raise AnalysisError(f"numpy.linalg.lstsq with keyword(s) {sorted(bad)} the transfer function does not model")
+        it = reg.new(kind="lsq", x=A.x, y=as_sym(y), call_style="poly", opts={"ncols": A.ncols, "rcond": k.get("rcond")})
         return Tup([CoefV(it, decreasing=not A.increasing), sp.Symbol("RES"), sp.Symbol("RANK"), sp.Symbol("SV")])
 
     def polyfit(ev, a, k):
         deg = k.get("deg", a[2] if len(a) > 2 else None)
-        it = reg.new(kind="lsq", x=as_sym(a[0]), y=as_sym(a[1]), call_style="poly", opts={"ncols": as_sym(deg) + 1})
+        bad = set(k) - {"deg", "rcond"}
+        if bad or len(a) > 3:
+            raise AnalysisError(f"numpy.polyfit with argument(s) {sorted(bad) or 'beyond deg'} the transfer function does not model (weights, covariance, full output)")
+        it = reg.new(kind="lsq", x=as_sym(a[0]), y=as_sym(a[1]), call_style="poly", opts={"ncols": as_sym(deg) + 1, "rcond": k.get("rcond")})
         return CoefV(it)
 
     def flip(ev, a, k):
